@@ -95,9 +95,12 @@ pub fn after_call(
     if post.persisted > pre.persisted || matches!(op, Op::Advance | Op::AdvanceAppend | Op::OnPersistReady(_)) {
         let p = post.persisted;
         let t = m.g.per[v].shadow.term(p);
+        let below_shadow = p < m.g.per[v].shadow.base_index;
         let ok = nodes[v].store.with(|s| match t {
             Some(t) => s.dur.holds(p, t),
-            None => p <= s.dur.snap_index,
+            // a pending (not yet written) snapshot replaced the in-memory log: the persisted
+            // index still refers to the old entries in storage; only their presence can be checked
+            None => p <= s.dur.snap_index || (below_shadow && p <= s.dur.last_index()),
         });
         m.stats.inc("c14.persisted_vs_durable_checks");
         if !ok {
